@@ -3,13 +3,13 @@
 # Thorough-tier helper: for every seeded change of this property (seeded/<id>-*/patch.diff)
 # copy /repo's working tree to a scratch directory, apply the patch there, run the
 # static rule set of the property on the copy and record whether it reports a
-# violation. Writes evidence/<id>.sensitivity.json. Never affects the verdict on
+# violation. Writes sensitivity/<id>.json. Never affects the verdict on
 # /repo itself; a patch that no longer applies is recorded as "skipped".
 set -u
 cd "$(dirname "$0")"
 ID="$1"; REPO="${VERIF_REPO:-/repo}"
-OUT="evidence/$ID.sensitivity.json"
-mkdir -p evidence
+OUT="sensitivity/$ID.json"
+mkdir -p evidence sensitivity
 echo "[" > "$OUT.tmp"; first=1
 for d in seeded/$ID-*/; do
   [ -f "$d/patch.diff" ] || continue
